@@ -92,8 +92,14 @@ def gen_seq_case(rng, cid, nops):
             lines.append(f"unify {h}")
             if S.h[h] != "null" and S.count(S.h[h]) > 1:
                 S.h[h] = S.nobj; S.nobj += 1
-        elif k < 0.92:
+        elif k < 0.90:
             lines.append(f"dtor {h}"); S.h[h] = None
+        elif k < 0.92:
+            cands = [s for s in ex if S.h[s] != "null"]
+            if S.h[h] != "null" and cands:
+                lines.append(f"objassign {h} {rng.choice(cands)}")
+            else:
+                lines.append(f"valid {h}")
         else:
             q = rng.choice(["use", "unique", "valid", "empty", "get", "eq"])
             if q == "use" and S.h[h] == "null":
